@@ -184,7 +184,7 @@ pub fn random_char(rng: &mut Rng) -> char {
             2 => 0x800 + rng.below(0xF800) as u32,
             3 => 0x10000 + rng.below(0x100000) as u32,
             4 => rng.below(0x20) as u32,
-            _ => *rng.pick(&[0x7f, 0x80, 0x7ff, 0x800, 0xd7ff, 0xe000, 0xfffd, 0xffff, 0x10000, 0x10ffff, 0x2028, 0x2029, 0x22, 0x5c]),
+            _ => *rng.pick(&[0x7f, 0x80, 0x7ff, 0x800, 0xd7ff, 0xe000, 0xfffd, 0xffff, 0x10000, 0x10ffff, 0x2028, 0x2029, 0x22, 0x5c, 0x1f3ff, 0x103ff, 0x1f400, 0x1fbff]),
         };
         if let Some(c) = char::from_u32(cp) {
             return c;
@@ -558,6 +558,12 @@ pub fn keypath_for(t: &Tree, rng: &mut Rng) -> Vec<KP> {
                     Some(k) => cur = &v[k],
                     None => break,
                 }
+            }
+            Tree::Obj(v) if rng.chance(1, 10) => {
+                // an index where a name is due (also one that spells an existing digit key)
+                let i = v.iter().filter_map(|(k, _)| k.parse::<i32>().ok()).next().unwrap_or(rng.range(-2, 3) as i32);
+                out.push(KP::Index(i));
+                break;
             }
             Tree::Obj(v) => {
                 let (name, next) = if rng.chance(4, 5) && !v.is_empty() {
@@ -949,6 +955,38 @@ pub fn huge_payload_doc() -> Tree {
         Tree::Obj(vec![("k".into(), Tree::Str("after".into())), ("z".into(), Tree::Null)]),
         Tree::Arr(vec![Tree::Str(s), Tree::Bool(true)]),
     ])
+}
+
+/// two objects whose sorted keys concatenate to the same bytes but are cut at different places
+/// (`{"a":..,"bc":..}` and `{"ab":..,"c":..}`), with related values
+pub fn resplit_objects(rng: &mut Rng) -> (Tree, Tree) {
+    let n = 2 + rng.below(3);
+    // strictly increasing letters keep any cut sorted and unique
+    let letters: Vec<char> = (0..(n * 2 + rng.below(3))).map(|k| (b'a' + k as u8) as char).collect();
+    let cut = |rng: &mut Rng| -> Vec<String> {
+        // choose n-1 cut points
+        let mut pts: Vec<usize> = Vec::new();
+        while pts.len() < n - 1 {
+            let p = 1 + rng.below(letters.len() - 1);
+            if !pts.contains(&p) {
+                pts.push(p);
+            }
+        }
+        pts.sort();
+        let mut out = Vec::new();
+        let mut prev = 0;
+        for p in pts.into_iter().chain(std::iter::once(letters.len())) {
+            out.push(letters[prev..p].iter().collect::<String>());
+            prev = p;
+        }
+        out
+    };
+    let (k1, k2) = (cut(rng), cut(rng));
+    let vals: Vec<Tree> = (0..n).map(|_| scalar(rng, false)).collect();
+    let o1 = Tree::obj_from(k1.into_iter().zip(vals.iter().cloned()).collect());
+    let vals2: Vec<Tree> = vals.iter().map(|v| if rng.chance(1, 3) { derive(v, rng) } else { v.clone() }).collect();
+    let o2 = Tree::obj_from(k2.into_iter().zip(vals2.into_iter()).collect());
+    (o1, o2)
 }
 
 /// wide rather than deep: 33..400 small containers or scalars side by side (more members than
